@@ -1,9 +1,15 @@
-#!/usr/bin/env python3
+#!/venv/bin/python
 """Regenerates /verif/MANIFEST.json from the table below (kept in one place so it stays valid)."""
 import json, os, sys
 VERIF = os.path.dirname(os.path.dirname(os.path.abspath(__file__)))
 sys.path.insert(0, os.path.join(VERIF, "harness"))
-from manifest_table import CHECKS, NOT_APPLICABLE, HOOK_COMMITS  # noqa
+sys.path.insert(0, VERIF)
+import importlib
+from manifest_table import CLAIMED, NOT_APPLICABLE, HOOK_COMMITS  # noqa
+CHECKS = {}
+for pid in CLAIMED:
+    mod = importlib.import_module("harness.props." + pid.lower())
+    CHECKS[pid] = mod.MANIFEST
 
 ALL = ["C%02d" % i for i in range(1, 21)]
 checks = []
